@@ -5,12 +5,12 @@ CONSTS = {"CertKeys": '{"k1","k2","k3"}'}
 GEN_CFGS = {}
 
 
-def G(tag, classes, depth, num, props, nidl=False, base=True, sw=False, regw=False, unix=False):
+def G(tag, classes, depth, num, props, nidl=False, base=True, sw=False, regw=False, unix=False, nide=False):
     name = "HandshakeGen_%s.cfg" % tag
     GEN_CFGS[name] = ("SPECIFICATION Spec\nCONSTANTS\n  CertKeys = {\"k1\",\"k2\",\"k3\"}\n  Depth = %d\n  Classes = {%s}\n  CfgNidl = %s\n  CfgBase = %s\nCHECK_DEADLOCK FALSE\n"
                       % (depth, ",".join('"%s"' % c for c in classes), "TRUE" if nidl else "FALSE", "TRUE" if base else "FALSE"))
     return dict(module="HandshakeGen.tla", cfg=name, depth=depth, num=num, props=props, tag=tag,
-                beh_cfg=dict(nidl=nidl, base=base, sw=sw, regw=regw, unix=unix, lifeSec=0, certKeys=["k1", "k2", "k3"]))
+                beh_cfg=dict(nidl=nidl, nide=nide, base=base, sw=sw, regw=regw, unix=unix, lifeSec=0, certKeys=["k1", "k2", "k3"]))
 
 
 def materialise(scr):
@@ -26,6 +26,9 @@ GENS = [
       dict(quick=25, thorough=500), ["C02"], nidl=False, sw=True),
     G("c02c", ["Enroll", "Remove", "ConnectNear", "ConnectOther"], 8,
       dict(quick=10, thorough=200), ["C02"], nidl=False, base=False),
+    # a node-id capable store that answers an unknown node id with an empty set rather than not-found
+    G("c02d", ["Enroll", "Remove", "ConnectNear", "ConnectNear", "ConnectHonest", "ConnectRand"], 10,
+      dict(quick=20, thorough=500), ["C02"], nidl=True, nide=True),
     G("c07a", ["NewNode", "DialPending", "AuthorizePending", "DialPending", "Enroll", "Rogue", "Rogue", "Dial", "Remove"], 10,
       dict(quick=30, thorough=500), ["C07"]),
     G("c07b", ["NewNode", "DialPending", "AuthorizePending", "Enroll", "Rogue", "Dial"], 9,
